@@ -15,7 +15,7 @@ ENGINE = "E5"
 TECHNIQUE = "bounded exhaustive enumeration of macro use forms x combinations x definition orders x file splits; the real expander+compiler output is compared with the compiled manually-inlined rule (text, then behaviour on all listings)"
 RULE = ("use forms U (each paired with its manual inlining): string macro as list item, as operand, inside a name (prefix, "
         "suffix), as key with a times body, as $deref field value; list macro (5 instruction-level bodies) as list item, as "
-        "'@m:' key, inside $or/$not/$and_any_order; operand-level list macro; parameterised macro with 1 and 2 formals "
+        "'@m:' key, inside $or/$not/$and_any_order; operand-level list macro; parameterised macro with 1 and 2 formals (in list-element and in dict-value position, nested up to three levels) "
         "called with leaf, sub-tree and falsy (YAML int 0) arguments, with equal and with different arguments; a macro whose body uses "
         "another macro (user listed first); a macro used inside a macro argument; three parameterised macros where a body calls another with a constant argument and formals share a name; a shared-library family: one macro file left unchanged on disk, used by a sequence of rules that define the macro it refers to differently; scale family: a chain of 5 macros each using the next, one macro used 8 times, a parameterised macro called 8 times with different arguments, 12 macros in one rule. Rules: EVERY sequence of length 1..K over "
         "U and 2 plain items (K=2 quick, 3 thorough on a reduced U), so one macro is used 1..K times. For each rule: EVERY "
@@ -30,7 +30,7 @@ LEVEL_TEXT = ("All rules of the stated use-form grammar x all admissible orders 
               "and compared with the manually inlined rule. Exhaustive within bounds.")
 LEVEL_NOTE = "Trusted: the (use form, inlined form) pairs written in this module; no reference expander is needed."
 
-ALPHA = [("xor", ["%eax", "%eax"]), ("mov", ["%rsi", "%rdi"]), ("mov", ["$0x0", "%edx"]), ("mov", ["$0x0", "%eax"]), ("mov", ["%rax", "%rbx"]), ("movl", ["%rbx", "%rax"]), ("push", ["%rax"]), ("ret", []), ("xor", ["%rax", "%rax"]),
+ALPHA = [("mov", ["0x8(%rax)", "%rcx"]), ("mov", ["0x10(%rbx)", "%rcx"]), ("xor", ["%eax", "%eax"]), ("mov", ["%rsi", "%rdi"]), ("mov", ["$0x0", "%edx"]), ("mov", ["$0x0", "%eax"]), ("mov", ["%rax", "%rbx"]), ("movl", ["%rbx", "%rax"]), ("push", ["%rax"]), ("ret", []), ("xor", ["%rax", "%rax"]),
          ("mov", ["(%rax)", "%rcx"]), ("mov", ["%rax", "$0x0"]), ("mov", ["$0x0", "%rbx"]), ("mov", ["$0x0", "%rax"])]
 
 M_S = {"name": "@s", "pattern": "mov"}
@@ -39,6 +39,9 @@ M_P1 = {"name": "@p1", "args": ["a1"], "pattern": [{"$or": [{"xor": ["a1", "a1"]
 M_P2 = {"name": "@p2", "args": ["a1", "a2"], "pattern": [{"mov": ["a1", "a2"]}]}
 M_P3 = {"name": "@p3", "args": ["i1", "i2"], "pattern": [{"$and": ["i1", "i2"]}]}
 M_O = {"name": "@o", "pattern": [{"$or": ["rax", "rcx"]}]}
+# formal parameters in dict-VALUE position ($deref fields) and nested two levels deep
+M_PD = {"name": "@pd", "args": ["b1", "k1"], "pattern": [{"mov": [{"$deref": {"main_reg": "b1", "constant_offset": "k1"}}, "rcx"]}]}
+M_PN = {"name": "@pn", "args": ["n1"], "pattern": [{"$or": [{"$and": [{"mov": ["n1", "rbx"]}, {"push": ["n1"]}]}, "ret"]}]}
 M_N = {"name": "@n", "pattern": [{"$or": ["@s", "push"]}]}          # body uses @s: @n must be listed before @s
 M_NP = {"name": "@np", "args": ["a1"], "pattern": [{"@s": ["a1", "@r"]}]}  # hmm key position: not a supported form
 LBODIES = {"@l1": "push", "@l2": {"mov": ["rax"]}, "@l3": {"$or": ["mov", "push"]}, "@l4": {"$not": ["ret"]},
@@ -78,6 +81,9 @@ def uses(tier):
         ({"@p2": None, "a1": "rax", "a2": 0}, {"mov": ["rax", 0]}, [M_P2], []),          # falsy argument values
         ({"@p2": None, "a1": 0, "a2": "rax"}, {"mov": [0, "rax"]}, [M_P2], []),
         ({"@p1": None, "a1": 0}, p1(0), [M_P1], []),
+        ({"@pd": None, "b1": "rax", "k1": "0x8"}, {"mov": [{"$deref": {"main_reg": "rax", "constant_offset": "0x8"}}, "rcx"]}, [M_PD], []),
+        ({"@pd": None, "b1": "%rbx", "k1": "0x10"}, {"mov": [{"$deref": {"main_reg": "%rbx", "constant_offset": "0x10"}}, "rcx"]}, [M_PD], []),
+        ({"@pn": None, "n1": "rax"}, {"$or": [{"$and": [{"mov": ["rax", "rbx"]}, {"push": ["rax"]}]}, "ret"]}, [M_PN], []),
         ({"@p3": None, "i1": "mov", "i2": "push"}, {"$and": ["mov", "push"]}, [M_P3], []),
         ({"@p3": None, "i1": {"push": ["rax"]}, "i2": "ret"}, {"$and": [{"push": ["rax"]}, "ret"]}, [M_P3], []),
         ("@n", {"$or": ["mov", "push"]}, [M_N, M_S], [("@n", "@s")]),
